@@ -105,19 +105,30 @@ func VerifC19Forge(c *Cache, q dns.Question, cd bool, from, to netip.Prefix) boo
 // VerifC19WithBypass installs the cache's request-tree marker (withSharedDenialBypass).
 func VerifC19WithBypass(ctx context.Context) context.Context { return withSharedDenialBypass(ctx) }
 
+// VerifC19Refresh describes one queued refresh that was run.
+type VerifC19Refresh struct {
+	Q    dns.Question
+	CD   bool
+	Opts []dns.EDNS0 // options on the queued copy of the triggering request
+}
+
 // VerifC19RunPrefetch empties the held queue by running the worker's own
 // processPrefetch on every queued refresh, synchronously and in queue order.
-func VerifC19RunPrefetch(c *Cache) (n int) {
+func VerifC19RunPrefetch(c *Cache) (out []VerifC19Refresh) {
 	if c.prefetchQueue == nil {
-		return 0
+		return nil
 	}
 	for {
 		select {
 		case r := <-c.prefetchQueue.items:
-			n++
+			it := VerifC19Refresh{Q: r.Request.Question[0], CD: r.Request.CheckingDisabled}
+			if o := r.Request.IsEdns0(); o != nil {
+				it.Opts = append(it.Opts, o.Option...)
+			}
+			out = append(out, it)
 			c.prefetchQueue.processPrefetch(r)
 		default:
-			return n
+			return out
 		}
 	}
 }
